@@ -72,6 +72,13 @@ def handler(job):
             L = PersLandscapeApprox(dgms=[bars], hom_deg=0, start=job["start"], stop=job["stop"], num_steps=job["n"])
             dom = np.linspace(L.start, L.stop, L.num_steps)
             cont = [[[fl(x), fl(y)] for x, y in zip(dom, row)] for row in np.asarray(L.values, dtype=float)]
+        if job.get("lazy"):
+            # the object handed to the plot function was built with compute=False: plotting is the FIRST query on it (the content above comes
+            # from an eagerly built twin)
+            if job["lkind"] == 1:
+                L = PersLandscapeExact(dgms=[bars.copy()], hom_deg=0, compute=False)
+            else:
+                L = PersLandscapeApprox(dgms=[bars.copy()], hom_deg=0, start=job["start"], stop=job["stop"], num_steps=job["n"], compute=False)
         kw = dict(ax=a)
         if job.get("title"):
             kw["title"] = job["title"]
@@ -100,6 +107,16 @@ def handler(job):
         out["onax"] = lines_of(a)
         out["onother"] = len(b.lines)
         out["ncoll"] = len(a.collections)
+        # every Line2D on the axes, and the lines the underlying diagram plot draws on its own (reference call on a fresh figure):
+        # the difference is the number of segments drawn for the matching, visible or degenerate
+        out["nlines"] = len(a.lines)
+        try:
+            fig2, a2 = plt.subplots(1, 1)
+            pad = (lambda d: d if d.size else np.array([[0.0, 0.0]])) if job["fn"] != "bottleneck" else (lambda d: d)
+            persim.plot_diagrams([pad(S), pad(T)], labels=["dgm1", "dgm2"], ax=a2)
+            out["nframe"] = len(a2.lines)
+        except Exception:
+            out["nframe"] = -1
     plt.close("all")
     return out
 
